@@ -250,8 +250,6 @@ def split_cases(r: Any, tier: str) -> list[dict[str, Any]]:
 
 
 def build_split_world(c: dict[str, Any]) -> tuple[p11emu.World, list[dict[str, Any]], Any]:
-    import PyKCS11.LowLevel as LL
-
     prof = next(p for p in SPLIT_PROFILES if p[0] == c["profile"])
     _name, kind, _alg, priv_attrs, wrapped = prof
     tk = split_key(prof)
@@ -290,7 +288,6 @@ def build_split_world(c: dict[str, Any]) -> tuple[p11emu.World, list[dict[str, A
             eslots.append(es)
         mods.append(p11emu.EmuModule(f"emu{mi}", eslots))
         desc.append({"path": f"emu{mi}", "pin": "1234"})
-    _ = LL
     return p11emu.World(mods), desc, tk
 
 
